@@ -21,7 +21,7 @@ import weave as W
 CBMC_BASE = ['--pointer-check', '--bounds-check', '--signed-overflow-check',
              '--div-by-zero-check', '--undefined-shift-check', '--pointer-primitive-check']
 SOLVER = {'kissat': ['--external-sat-solver', 'kissat'], 'cadical': ['--sat-solver', 'cadical'], 'minisat': []}[os.environ.get('VERIF_SOLVER', 'kissat')]
-MEM_KB = int(os.environ.get('VERIF_MEM_KB', str(12 * 1024 * 1024)))
+MEM_KB = int(os.environ.get('VERIF_MEM_KB', str(14 * 1024 * 1024)))     # per process; a CaDiCaL fallback run once grew to 20 GB and triggered the global OOM killer
 
 def _limits():
     resource.setrlimit(resource.RLIMIT_AS, (MEM_KB * 1024, MEM_KB * 1024))
